@@ -651,7 +651,7 @@ pub fn run_history(root: &str, scn: &mut Scn, oracle: &mut Oracle, st: &mut Stat
         }
         let before = cli::snapshot(root);
         let args = inv.cmd.argv();
-        let answers: Vec<String> = (0..6).map(|_| inv.answer.clone()).collect();
+        let answers: Vec<String> = (0..40).map(|_| inv.answer.clone()).collect();
         let stdin = cli::stdin_script(&answers);
         let e = match predict(&before, &inv, inv.answer == "y", oracle, &mut model, &mut probes) {
             Pred::Judged(e) => e,
@@ -733,7 +733,7 @@ pub fn run_history(root: &str, scn: &mut Scn, oracle: &mut Oracle, st: &mut Stat
                                 probe(st, "crash_left_partial_output");
                             }
                             if inv.recover {
-                                let yes: Vec<String> = (0..6).map(|_| "y".to_string()).collect();
+                                let yes: Vec<String> = (0..40).map(|_| "y".to_string()).collect();
                                 let mut inv2 = inv.clone();
                                 if let Cmd::Seq { overwrite, output, .. } = &mut inv2.cmd {
                                     if *output {
